@@ -220,7 +220,19 @@ type Attr struct {
 
 // UnmarshalToType unmarshals the data into a value of the type represented by
 // the attribute and returns it.
+//
+// It panics if the attribute is of type bytes and data is not a valid value.
 func (a Attr) UnmarshalToType(data []byte) (any, error) {
+	v, err := a.unmarshalToType(data)
+	if err != nil && a.Type == AttrTypeBytes && string(data) != "null" {
+		panic(err)
+	}
+
+	return v, err
+}
+
+// unmarshalToType is like UnmarshalToType, but it never panics.
+func (a Attr) unmarshalToType(data []byte) (any, error) {
 	if string(data) == "null" {
 		if a.Nullable {
 			return GetZeroValue(a.Type, a.Nullable), nil
@@ -362,11 +374,7 @@ func (a Attr) UnmarshalToType(data []byte) (any, error) {
 		}
 	case AttrTypeBytes:
 		s := make([]byte, len(data))
-		err := json.Unmarshal(data, &s)
-
-		if err != nil {
-			panic(err)
-		}
+		err = json.Unmarshal(data, &s)
 
 		if a.Nullable {
 			v = &s
